@@ -24,6 +24,9 @@ def check(ctx, rep):
     F.rule_setters(fm, rep, 'R4s', only=('rate', 'ts'))
     K.rule_rejection(fm, rep, 'R5')
     K.rule_try_send(fm, rep, 'R5t')
+    # "packed lists keep their length and order": a list is never turned away for its length (only for having no elements)
+    from .common import KeepOnly
+    K.rule_nonempty(fm, KeepOnly(rep, ('rejects-only-empty-lists',), 'R7'), 'R7')
     # the statsd_* macros are one more way a value reaches the client: handed over as supplied, no cast in between
     from . import c17
     c17.rule_macro_values(ctx, rep, 'R6m')
